@@ -171,8 +171,10 @@ impl<B: Buffer> History<B> {
 #[cfg(feature = "verif-hooks")]
 impl<B: Buffer> History<B> {
     /// (whole buffer, used, cursor)
+    // casts: the accessors keep compiling (and keep their signature) if a change narrows the field types
+    #[allow(clippy::unnecessary_cast)]
     pub fn __verif_state(&self) -> (&[u8], usize, Option<usize>) {
-        (self.buffer.as_slice(), self.used, self.cursor)
+        (self.buffer.as_slice(), self.used as usize, self.cursor.map(|c| c as usize))
     }
 
     /// Hash over every field of the struct (the buffer contributes what its own `Hash` impl chooses)
@@ -184,8 +186,9 @@ impl<B: Buffer> History<B> {
     }
 
     /// Overwrite bytes that are not part of any stored element
+    #[allow(clippy::unnecessary_cast)]
     pub fn __verif_poison(&mut self, byte: u8) {
-        let used = self.used;
+        let used = self.used as usize;
         self.buffer.as_slice_mut()[used..].fill(byte);
     }
 }
